@@ -34,6 +34,10 @@ func init() {
 				cm["n"] = n
 				// the largest batch also handed over as a view into a larger parent batch
 				cm["views"] = n == batchSizes[len(batchSizes)-1]
+				// ... and lazily transposed (first two axes exchanged), except for models whose first operator is known
+				// to answer differently for lazily transposed operands on the unchanged tree (gorgonia's matrix
+				// product and softmax kernels, PRelu and the recurrent operators' raw-data access; DESIGN 8.3)
+				cm["lazy"] = cm["views"].(bool) && !map[string]bool{"MatMul": true, "PRelu": true, "RNN": true, "GRU": true, "LSTM": true, "Softmax": true, "LogSoftmax": true, "Gemm": true}[nodes[0].op]
 				p.Jobs = append(p.Jobs, Job{Harness: "gonnx.H_C16", Case: cm})
 			}
 		}
@@ -157,6 +161,7 @@ func init() {
 		}
 		p.Outside = []string{"Softmax/LogSoftmax along the LAST axis with N > 1 over the reals (equal there, but that needs exp(a+b)=exp(a)exp(b), which the uninterpreted exp cannot give); in IEEE arithmetic it is NOT batch independent: decided on the grid {-200,0,200} and reported as a known finding", "N > 3", "ndm.onnx (1.1 MB of weights)", "rounding: the statement is an identity over the reals (gorgonia's softmax seeds a slice maximum with the first element of the whole batch, which only affects rounding/overflow and is reported under C09)"}
 		p.Explanation = "NewModel + Model.Run on batches and on single samples executed symbolically"
+		reentrancyJobs(o, p)
 		return p
 	}
 }
